@@ -3,7 +3,7 @@ use crate::{Cleanup, FileSpec, LogfileSelector};
 #[cfg(feature = "compress")]
 use std::fs::File;
 use std::{
-    path::PathBuf,
+    path::{Path, PathBuf},
     thread::{Builder as ThreadBuilder, JoinHandle},
 };
 
@@ -73,14 +73,21 @@ pub(super) fn remove_or_compress_too_old_logfiles(
     file_spec: &FileSpec,
     infix_filter: &InfixFilter,
     writes_direct: bool,
+    current_path: &Path,
 ) -> Result<(), std::io::Error> {
+    // with a direct naming the current output file is one of the listed files
+    let o_current = if writes_direct {
+        Some(current_path)
+    } else {
+        None
+    };
     o_cleanup_thread_handle.as_ref().map_or_else(
         || {
             remove_or_compress_too_old_logfiles_impl(
                 cleanup_config,
                 file_spec,
                 infix_filter,
-                writes_direct,
+                o_current,
             )
         },
         |cleanup_thread_handle| {
@@ -88,7 +95,9 @@ pub(super) fn remove_or_compress_too_old_logfiles(
             crate::verif_hooks::sched_point("cleanup_send");
             cleanup_thread_handle
                 .sender
-                .send(MessageToCleanupThread::Act)
+                .send(MessageToCleanupThread::Act(
+                    o_current.map(Path::to_path_buf),
+                ))
                 .ok();
             Ok(())
         },
@@ -99,7 +108,7 @@ pub(crate) fn remove_or_compress_too_old_logfiles_impl(
     cleanup_config: &Cleanup,
     file_spec: &FileSpec,
     infix_filter: &InfixFilter,
-    writes_direct: bool,
+    o_current: Option<&Path>,
 ) -> Result<(), std::io::Error> {
     let (mut log_limit, compress_limit) = match *cleanup_config {
         Cleanup::Never => {
@@ -117,7 +126,7 @@ pub(crate) fn remove_or_compress_too_old_logfiles_impl(
     };
 
     // we must not clean up the current output file
-    if writes_direct && log_limit == 0 {
+    if o_current.is_some() && log_limit == 0 {
         log_limit = 1;
     }
 
@@ -145,6 +154,11 @@ pub(crate) fn remove_or_compress_too_old_logfiles_impl(
     }
 
     for (index, file) in files.into_iter().enumerate() {
+        // the current output file is never touched, wherever the listing puts it
+        // (its name sorts behind older files e.g. after the clock was set back)
+        if o_current.is_some_and(|current| current == file) {
+            continue;
+        }
         if index >= log_limit + compress_limit {
             // delete (log or log.gz)
             #[cfg(flexi_logger_verif)]
@@ -205,7 +219,8 @@ pub(super) struct CleanupThreadHandle {
 }
 
 enum MessageToCleanupThread {
-    Act,
+    // (with a direct naming: the current output file)
+    Act(Option<PathBuf>),
     Die,
 }
 impl CleanupThreadHandle {
@@ -219,7 +234,6 @@ pub(super) fn start_cleanup_thread(
     cleanup: Cleanup,
     file_spec: FileSpec,
     infix_filter: &InfixFilter,
-    writes_direct: bool,
 ) -> Result<CleanupThreadHandle, std::io::Error> {
     let (sender, receiver) = std::sync::mpsc::channel();
     let builder = ThreadBuilder::new().name(CLEANER.to_string());
@@ -231,12 +245,12 @@ pub(super) fn start_cleanup_thread(
         join_handle: builder.spawn(move || {
             #[cfg(flexi_logger_verif)]
             let _exit = crate::verif_hooks::SchedGuard("cleanup_exit");
-            while let Ok(MessageToCleanupThread::Act) = receiver.recv() {
+            while let Ok(MessageToCleanupThread::Act(o_current)) = receiver.recv() {
                 remove_or_compress_too_old_logfiles_impl(
                     &cleanup,
                     &file_spec,
                     &infix_filter_cp,
-                    writes_direct,
+                    o_current.as_deref(),
                 )
                 .ok();
                 #[cfg(flexi_logger_verif)]
